@@ -40,6 +40,10 @@ Judge(ev) ==
     [] ev.op = "Alias" -> /\ G!FixLegacy(ev.s) = ev.u       \* the event is about a spelling of u
                           /\ ev.legacy = ev.current          \* same outcome through this API entry
                           /\ ev.ok                          \* ... and the legacy spelling is accepted
+    \* an exact alias is refused wherever the current spelling is refused (values of another quantity type asked for this unit)
+    [] ev.op = "AliasRefused" -> /\ G!FixLegacy(ev.s) = ev.u
+                                 /\ ev.legacy = ev.current
+                                 /\ ~ev.ok
     [] OTHER -> FALSE
 Next == /\ l < Len(Trace)
         /\ l' = l + 1
